@@ -14,6 +14,7 @@ from spox._internal_op import (
 )
 from spox._node import OpType
 from spox._scope import Scope
+from spox._standard import _NON_DETERMINISTIC_OPS
 from spox._type_system import Type
 from spox._var import Var
 
@@ -153,6 +154,12 @@ class _Inline(_InternalNode):
             # A propagated value ends up in reported shapes (Reshape, Range, ...), and the
             # backends do not evaluate control flow reliably (the reference Loop treats an
             # omitted ``cond`` as false and returns the initial values).
+            return {}
+        if any(
+            node.domain in ("", "ai.onnx") and node.op_type in _NON_DETERMINISTIC_OPS
+            for node in self.graph.node
+        ):
+            # A model which samples (RandomUniform, Dropout, ...) has no constant outputs.
             return {}
         wrap_feed, run, unwrap_feed = _value_prop.get_backend_calls()
         input_feed = {
